@@ -177,6 +177,8 @@ def grid_job(args):
     h = rng.choice([F(1, 8), F(1, 4)])
     n = rng.choice([3, 4]) if h == F(1, 8) else 3
     m0 = rng.randint(1, int(1 / h) - (n - 1))
+    if rng.random() < 0.25:
+        m0 = 0      # a linear grid may start at x = 0
     gold = [(m0 + i) * h for i in range(n)]
     deg = 2 if few else rng.randint(1, 2)
     sc = 8
@@ -197,7 +199,7 @@ def grid_job(args):
         # an equally spaced dyadic grid whose hull contains the old grid
         hh = rng.choice([h / 2, h, 2 * h])
         lo = gold[0] - rng.choice([0, 1]) * hh
-        while lo <= 0:
+        while lo < 0 or (lo == 0 and gold[0] != 0):
             lo += hh
         lo = min(lo, gold[0])
         cnt = int(math.ceil((gold[-1] - lo) / hh)) + 1 + rng.choice([0, 1])
